@@ -11,7 +11,7 @@ def main(root):
     import fxpkg
     from fxpkg import broken, gone, kinds, mod
     from fxpkg.sub import leaf
-    from mypy_extensions import TypedDict
+    from monkeytype.typing import get_type
     from monkeytype.encoding import CallTraceRow
     from monkeytype.tracing import CallTrace
     NoneType = type(None)
@@ -30,7 +30,7 @@ def main(root):
         "cm": T(K.cm.__func__, {"cls": Type[K], "x": int}, int),
         "sm": T(K.sm, {"x": Optional[int]}, Optional[int]),
         "prop": T(K.prop.fget, {"self": K}, int),
-        "td": T(mod.f_ok, {"a": TypedDict("DUMMY_NAME", {"p": int, "q": Keep}), "b": str}, NoneType),
+        "td": T(mod.f_ok, {"a": get_type({"p": 1, "q": Keep()}, 10), "b": str}, NoneType),
         # rows that a mutation makes stale
         "removed": T(mod.f_removed, {"a": int}, int),
         "nonfunc": T(mod.f_nonfunc, {"a": int}, int),
@@ -47,7 +47,7 @@ def main(root):
         "argcls_nested": T(mod.f_argcls, {"a": int, "b": List[Dict[str, A]]}, NoneType),
         "argcls_opt": T(mod.f_argcls, {"a": Optional[A], "b": Keep}, Keep),
         "argcls_two": T(mod.f_argcls, {"a": A, "b": D}, D),
-        "td_stale": T(mod.f_ok, {"a": TypedDict("DUMMY_NAME", {"k": int, "p": A}), "b": int}, int),
+        "td_stale": T(mod.f_ok, {"a": get_type({"k": 1, "p": A()}, 10), "b": int}, int),
         "retcls": T(mod.f_retcls, {"a": int}, B),
         "retcls_nested": T(mod.f_retcls, {"a": str}, Dict[str, Tuple[int, B]]),
         "yieldcls": T(mod.f_yieldcls, {"a": int}, NoneType, C),
